@@ -86,7 +86,8 @@ func extractC07() {
 	}
 	g.def("readRequestSelectArms", "List String", leanList(arms))
 
-	// Serve: loop-top check, Accept, RemoteAddr evaluation, go statement — in this order
+	// Serve: loop-top check, Accept, go statement — in this order (the harness additionally relies on the
+	// debug log evaluating conn.RemoteAddr() in between to force F07; it degrades gracefully without it)
 	var serve []string
 	if fd := funcDecl(f, "Proxy", "Serve"); fd != nil {
 		ast.Inspect(fd.Body, func(n ast.Node) bool {
@@ -96,7 +97,7 @@ func extractC07() {
 				return false
 			case *ast.CallExpr:
 				s := src(x.Fun)
-				if s == "p.Closing" || s == "l.Accept" || s == "conn.RemoteAddr" {
+				if s == "p.Closing" || s == "l.Accept" {
 					serve = append(serve, s)
 				}
 			}
